@@ -5,7 +5,7 @@
 //!   x problems {sphere, shifted linear, plateau, penalised}           (single objective)
 //!     / {two spheres}                                                   (multi objective)
 //!   x dim {1,2,3,6} (thorough: +10) x bounds {symmetric, asymmetric [2,5], one-sided [-1,0], degenerate lo==hi, tiny width 1e-12}
-//!   x population {2,3,10} x iterations {0,1,7} x seeds {0,1,2} (thorough: {2,3,4,5,10,30} x {0,1,2,7,30} x {0..5})
+//!   x population {2,3,10,12} x iterations {0,1,7} x seeds {0,1,2} (thorough: {2,3,4,5,10,30} x {0,1,2,7,30} x {0..5})
 //!   x runs {pool 1, pool 1 again, pool 8}.
 //! Every run happens in a worker process (stdout of the solvers silenced, timeout = hang outcome).
 use ndarray::Array1;
@@ -26,7 +26,7 @@ struct Lattice {
     iters: &'static [usize],
     seeds: &'static [u64],
 }
-const QUICK: Lattice = Lattice { dims: &[1, 2, 3, 6], pops: &[2, 3, 10], iters: &[0, 1, 7], seeds: &[0, 1, 2] };
+const QUICK: Lattice = Lattice { dims: &[1, 2, 3, 6], pops: &[2, 3, 10, 12], iters: &[0, 1, 7], seeds: &[0, 1, 2] };
 const THOROUGH: Lattice = Lattice { dims: &[1, 2, 3, 6, 10], pops: &[2, 3, 4, 5, 10, 30], iters: &[0, 1, 2, 7, 30], seeds: &[0, 1, 2, 3, 4, 5] };
 fn lattice(t: usize) -> &'static Lattice {
     if t == 0 {
